@@ -257,7 +257,9 @@ def real_history(ctx, idx):
 DIAG_TEXTS = {
     "main.oal": ['use "lib.oal";\nres /a on get -> <t>;\n', 'use "lib.oal";\nres /a on get -> <zz>;\n', 'res /a on get -> <str>;\n',
                  'use "lib.oal";\nres /a on get -> <t> ;;\n', 'use "lib.oal";\nuse "other.oal";\nres /a on get -> <t> :: <status=404, o>;\n',
-                 'use "gone.oal";\nres / on get -> <>;\n'],
+                 'use "gone.oal";\nres / on get -> <>;\n',
+                 # the program loads and fails in evaluation: its diagnostics must survive events on unrelated documents
+                 'use "lib.oal";\nres /a on get -> <status=999, t>;\n', 'use "lib.oal";\nres /a on get -> <status=999, t>;\n'],
     "lib.oal": ["let t = { 'n num };\n", "let t = { 'n nope };\n", "let t = { 'n num }\n", "let t = <> & {};\n"],
     "other.oal": ["let o = str;\n", "let o = ;\n", "let o = q;\n"],
 }
